@@ -57,10 +57,11 @@ func roFamilies() []roFamily {
 }
 
 type roWrite struct {
-	f    *ssa.Function
-	in   ssa.Instruction
-	loc  string // Type.field or global
-	what string
+	f     *ssa.Function
+	in    ssa.Instruction
+	loc   string // Type.field or global
+	owner string // the long-lived object type the location is part of
+	what  string
 }
 
 // locationOf: the long-lived location an address or container value belongs to ("Type.field", "global:pkg.name").
@@ -84,7 +85,14 @@ func locationOf(v ssa.Value, depth int) (loc string, owner string, ok bool) {
 			return "", "", false // an element of a container built in this function (an explicit stack, a scratch list)
 		}
 		if n := namedStructOf(x.X.Type()); n != nil && n.Obj().Pkg() != nil && an.InModulePkg(n.Obj().Pkg()) {
-			return n.Obj().Name() + "." + an.FieldName(x.X.Type(), x.Field), n.Obj().Name(), true
+			owner := n.Obj().Name()
+			// a struct value nested in another struct belongs to the object that contains it
+			for outer, ok := x.X.(*ssa.FieldAddr); ok; outer, ok = outer.X.(*ssa.FieldAddr) {
+				if on := namedStructOf(outer.X.Type()); on != nil {
+					owner = on.Obj().Name()
+				}
+			}
+			return n.Obj().Name() + "." + an.FieldName(x.X.Type(), x.Field), owner, true
 		}
 		return locationOf(x.X, depth+1)
 	case *ssa.IndexAddr:
@@ -125,8 +133,8 @@ func namedStructOf(t types.Type) *types.Named {
 func writesOf(f *ssa.Function) []roWrite {
 	var out []roWrite
 	add := func(in ssa.Instruction, target ssa.Value, what string) {
-		if loc, _, ok := locationOf(target, 0); ok {
-			out = append(out, roWrite{f, in, loc, what})
+		if loc, owner, ok := locationOf(target, 0); ok {
+			out = append(out, roWrite{f, in, loc, owner, what})
 		}
 	}
 	an.AllInstrs(f, func(in ssa.Instruction) {
@@ -259,11 +267,7 @@ func ruleReadersWriteNothing(c *Ctx, rule string, families ...string) {
 			}
 			checked++
 			for _, w := range writesOf(f) {
-				owner := w.loc
-				if i := strings.IndexByte(owner, '.'); i > 0 && !strings.HasPrefix(owner, "global:") {
-					owner = owner[:i]
-				}
-				if fam.allowed[owner] {
+				if fam.allowed[w.owner] {
 					continue
 				}
 				k := key{an.FuncKey(f), w.loc}
